@@ -220,7 +220,7 @@ void ExecImpl::op_call(const Op& op) {
   catch (fatal_report const&) { o.outcome = OC_THREW_FATAL; }
   catch (clause_fault const&) { o.outcome = OC_THREW_FAULT; }
   catch (std::runtime_error const& ex) { o.outcome = OC_THREW_STD; o.sval = ex.what(); }
-  catch (sim_error const& ex) { o.outcome = OC_THREW_STD; o.sval = "user " + ex.text; }
+  catch (sim_error const& ex) { o.outcome = OC_THREW_USER; o.sval = ex.text; }   // (not derived from std::exception: traced as "unknown")
   catch (std::logic_error const& ex) { o.outcome = OC_THREW_LOGIC; o.sval = ex.what(); }
   catch (int v) { o.outcome = OC_THREW_INT; o.value = v; }
   catch (...) { o.outcome = OC_THREW_OTHER; }
@@ -456,12 +456,12 @@ void ExecImpl::op_call(const Op& op) {
         break;
       }
       case RK_THROW_STD: wo = OC_THREW_STD; ws = "inst " + std::to_string(cand); break;
-      case RK_LRTHROW_VAR: wo = OC_THREW_STD; ws = "user inst " + std::to_string(cand); break;   // a copy of the local: the same text on every call
+      case RK_LRTHROW_VAR: wo = OC_THREW_USER; ws = "inst " + std::to_string(cand); break;   // a copy of the local: the same text on every call
       case RK_THROW_INT: wo = OC_THREW_INT; wv = cand; break;
     }
     bool ok = o.outcome == wo;
     if (ok && (wo == OC_RET_INT || wo == OC_THREW_INT)) ok = o.value == wv;
-    if (ok && (wo == OC_RET_STR || wo == OC_THREW_STD)) ok = o.sval == ws;
+    if (ok && (wo == OC_RET_STR || wo == OC_THREW_STD || wo == OC_THREW_USER)) ok = o.sval == ws;
     if (ok && wo == OC_RET_REF) ok = o.refaddr == wa;
     if (ok && wo == OC_RET_REF && d.rk == RK_CREF_CAPT && *static_cast<const int*>(o.refaddr) != e.v[0]) ok = false;
     if (!ok) {
@@ -479,7 +479,7 @@ void ExecImpl::op_call(const Op& op) {
   std::vector<Pend> pend;
   // OK report (C16)
   {
-    const bool threw = o.outcome == OC_THREW_FAULT || o.outcome == OC_THREW_STD || o.outcome == OC_THREW_INT;
+    const bool threw = o.outcome == OC_THREW_FAULT || o.outcome == OC_THREW_STD || o.outcome == OC_THREW_INT || o.outcome == OC_THREW_USER;
     if (o.oks.size() != 1) { pend.push_back(Pend{threw ? "C16,C08" : "C16", "ok_count", std::to_string(o.oks.size()) + " OK reports for one accepted call; " + call_desc()}); goto ok_done; }
     if (o.oks[0].gen != gen) { pend.push_back(Pend{"C16", "ok_route", "OK report delivered to reporter generation " + std::to_string(o.oks[0].gen) + ", installed is " + std::to_string(gen)}); goto ok_done; }
     if (o.oks[0].msg != d.text) { pend.push_back(Pend{"C16", "ok_text", "OK report text '" + o.oks[0].msg + "' but the call was handled by " + describe_exp(cand)}); goto ok_done; }
@@ -500,7 +500,7 @@ ok_done:;
         case OC_RET_INT: case OC_RET_REF: wantmsg += " -> " + std::to_string(o.value) + "\n"; break;
         case OC_RET_STR: wantmsg += " -> " + o.sval + "\n"; break;
         case OC_THREW_STD: wantmsg += "threw exception: what() = " + o.sval + "\n"; break;
-        case OC_THREW_INT: case OC_THREW_FAULT: wantmsg += "threw unknown exception\n"; break;
+        case OC_THREW_INT: case OC_THREW_FAULT: case OC_THREW_USER: wantmsg += "threw unknown exception\n"; break;
         default: break;
       }
       std::string got;
